@@ -38,6 +38,7 @@ class Flow:
         self._alias: dict[str, Optional[str]] = {}
         self.unresolved: set[str] = set()
         self._inputs: dict[tuple, set] = {}
+        self._encl: dict[int, dict] = {}
 
     def df(self, f: FuncInfo) -> DataFlow:
         k = id(f.node)
@@ -113,8 +114,44 @@ class Flow:
                 continue
             seen_src.add(id(e))
             out |= self._paths_of(f, cls, at, e, depth, selfname, skip_vars)
+        # control dependence: a definition (or the expression itself) placed under an if / loop also depends on
+        # what decides whether it executes
+        encl = self._enclosing_tests(f)
+        for n in sorted(res.def_nodes | {node_idx}):
+            st = df.cfg.nodes[n].ast
+            for t in encl.get(id(st), []):
+                tn = df.cfg.stmt_node.get(id(t))
+                if tn is None or tn == n:
+                    continue
+                head = t.test if isinstance(t, (ast.If, ast.While)) else t.iter
+                out |= self.inputs(f, cls, tn, head, depth, skip_vars)
         self._inputs[memo_key] = out
         return out
+
+    def _enclosing_tests(self, f: FuncInfo) -> dict[int, list[ast.AST]]:
+        k = id(f.node)
+        if k in self._encl:
+            return self._encl[k]
+        table: dict[int, list[ast.AST]] = {}
+
+        def rec2(body_owner: ast.AST, stack: list[ast.AST]) -> None:
+            for fld in ("body", "orelse", "finalbody"):
+                for st in getattr(body_owner, fld, []) or []:
+                    if isinstance(st, (ast.FunctionDef, ast.AsyncFunctionDef, ast.ClassDef)):
+                        continue
+                    table[id(st)] = list(stack)
+                    if isinstance(st, (ast.If, ast.While, ast.For)):
+                        rec2(st, stack + [st])
+                    elif isinstance(st, (ast.With, ast.Try)):
+                        rec2(st, stack)
+                        for h in getattr(st, "handlers", []):
+                            table[id(h)] = list(stack)
+                            rec2(h, stack)
+            return
+
+        rec2(f.node, [])
+        self._encl[k] = table
+        return table
 
     def _is_param_root(self, df: DataFlow, at: int, name: str) -> bool:
         return any(d.kind == "param" for d in df.reaching(at, name))
@@ -385,6 +422,20 @@ def _slot_memos(flow: Flow, f: FuncInfo, c: ClassInfo) -> list[Memo]:
     for st in f.body:
         if not isinstance(st, ast.If) or st.orelse:
             continue
+        # equivalent keyless idiom:  if self._v is None: self._v = compute(...)   ...   return self._v
+        t0 = st.test
+        if isinstance(t0, ast.Compare) and len(t0.ops) == 1 and isinstance(t0.ops[0], ast.Is) and \
+                _self_attr(t0.left) is not None and isinstance(t0.comparators[0], ast.Constant) and \
+                t0.comparators[0].value is None and len(st.body) == 1 and isinstance(st.body[0], ast.Assign) and \
+                any(_self_attr(t) == _self_attr(t0.left) for t in st.body[0].targets):
+            slot0 = _self_attr(t0.left)
+            returns_slot = any(isinstance(r, ast.Return) and _self_attr(r.value) == slot0 for r in f.body)
+            n_stores = sum(1 for n in walk_no_nested(f.node) if isinstance(n, ast.Assign)
+                           and any(_self_attr(t) == slot0 for t in n.targets))
+            if returns_slot and n_stores == 1:
+                df0 = flow.df(f)
+                out.append(Memo("keyless", f, c, {slot0}, [], (df0.cfg.node_of(st.body[0]).idx, st.body[0].value)))
+            continue
         if not (len(st.body) == 1 and isinstance(st.body[0], ast.Return) and _self_attr(st.body[0].value) is not None):
             continue
         slot = _self_attr(st.body[0].value)
@@ -594,17 +645,16 @@ def run(ctx) -> None:
                 else:
                     immut.append(p)
                 continue
-            if p[0] == "param" and p[2] != WHOLE and any(q[0] == "param" and q[1] == p[1] for q in k_paths) is False \
-                    and False:
-                pass
             missing.append((p, ""))
-        # a parameter whose *whole* value flows in is covered when every attribute path is? no: only exact/whole.
+        # an attribute path of a parameter that is missing as a whole adds nothing to the message
+        whole_missing = {p[1] for p, _ in missing if p[0] == "param" and p[2] == WHOLE}
+        missing = [(p, w) for p, w in missing if not (p[0] == "param" and p[2] != WHOLE and p[1] in whole_missing)]
         if id(c.node) not in held_cache:
             held_cache[id(c.node)] = held_sites(repo, c)
         held, n_sites = held_cache[id(c.node)]
         per_call = n_sites > 0 and not held
         construct = f.qualname
-        key_txt = " / ".join(dict.fromkeys(norm_text(k)[:60] for _, k in m.key_sites)) or "(no key)"
+        key_txt = ("[" + ", ".join(_fmt(p) for p in sorted(k_paths, key=str)) + "]") if m.key_sites else "(no key)"
         detail_ok = (f"{m.kind} memo, key {key_txt}: every input of the value is keyed "
                      f"[{', '.join(_fmt(p) for p in sorted(v_paths, key=str) if covered(p)) or '-'}]"
                      + (f"; immutable after construction: {', '.join(_fmt(p) for p in immut)}" if immut else ""))
